@@ -35,6 +35,9 @@ pub enum Step {
     Poke(Poke),
     /// advance the clock past the flush interval, run one tick of the real background task, then shut it down
     BackgroundTick,
+    /// a timed search during which the named tiers are slow (E2 stall gate): their timeouts fire, three in a row
+    /// open the tier's circuit breaker. The search result itself is C06's subject; here it is the fault.
+    SlowSearch { q: Vec<u32>, k: usize, hot: bool, cold: bool },
 }
 
 #[derive(Clone, Debug, PartialEq, Serialize, Deserialize)]
@@ -64,8 +67,23 @@ pub fn gen_plan(seed: u64, run: u64, tier: &str) -> Plan {
     let n = rng.range(4, if tier == "thorough" { 60 } else { 30 }) as usize;
     let mut w = 0u64;
     let mut steps = Vec::new();
+    // a quarter of the histories meet slow tiers: timed searches whose hot / cold tier search is held back past its
+    // timeout, mostly three in a row (the breaker threshold), followed by the ordinary mix of reads and clock gaps
+    let slow = run % 4 == 2;
     for _ in 0..n {
         let r = rng.below(100);
+        if slow && rng.chance(1, 12) {
+            let (hot, cold) = *rng.pick(&[(false, true), (false, true), (true, false), (true, true)]);
+            let reps = if rng.chance(2, 3) { 3 } else { 1 };
+            for _ in 0..reps {
+                w += 1;
+                steps.push(Step::SlowSearch { q: bits(&gen_vector(&mut rng, cfg.dim, 7000 + w)), k: *rng.pick(&[1usize, 3]), hot, cold });
+            }
+            if rng.chance(1, 2) {
+                steps.push(Step::Api(ApiOp::Query { id: rng.below(universe) }));
+            }
+            continue;
+        }
         if pokes && r < 18 {
             let id = rng.below(universe);
             let target = rng.below(2) as u8;
@@ -109,6 +127,8 @@ struct Ctx {
     seen: BTreeMap<u64, Vec<(Vec<u32>, VectorCoherenceToken)>>,
     /// classes of pokes planted since the id was last written/deleted: id -> labels
     planted: BTreeMap<u64, Vec<String>>,
+    /// simulated instants at which an injected slow cold tier made the engine report a cold-tier timeout
+    cold_timeouts_at: Vec<u64>,
 }
 
 fn observe(b: &Built, ctx: &mut Ctx, id: u64) {
@@ -186,16 +206,29 @@ fn background_tick(b: &Built) {
     });
 }
 
-fn read_all(b: &Built, id: u64) -> Vec<(&'static str, Option<Option<Doc>>, Option<bool>)> {
-    // (flavour, Some(result as (vector?, metadata?)), exists)
+fn read_all(b: &Built, id: u64) -> Vec<(&'static str, Option<Option<Doc>>, Option<bool>, bool)> {
+    // (flavour, Some(result as (vector?, metadata?)), exists, turned away by an open circuit breaker)
     let e = &b.engine;
-    let mut out: Vec<(&'static str, Option<Option<Doc>>, Option<bool>)> = Vec::new();
-    out.push(("query", Some(e.query(id, None).map(|v| (bits(&v), Meta::new()))), None));
-    out.push(("get_embedding_cache_aware", Some(e.get_embedding_cache_aware(id).map(|v| (bits(&v), Meta::new()))), None));
-    out.push(("get_document_with_metadata", Some(e.get_document_with_metadata(id).map(|(v, m)| (bits(&v), to_btree(&m)))), None));
-    out.push(("bulk_query", Some(e.bulk_query(&[id], true).into_iter().next().flatten().map(|(v, m)| (bits(&v), to_btree(&m)))), None));
-    out.push(("get_metadata", Some(e.get_metadata(id).map(|m| (vec![], to_btree(&m)))), None));
-    out.push(("exists", None, Some(e.exists(id))));
+    let mut out: Vec<(&'static str, Option<Option<Doc>>, Option<bool>, bool)> = Vec::new();
+    let rej = |e: &kyrodb_engine::TieredEngine| e.stats().circuit_breaker_rejections;
+    let mut r0 = rej(e);
+    let mut push = |out: &mut Vec<(&'static str, Option<Option<Doc>>, Option<bool>, bool)>, fl: &'static str, res: Option<Option<Doc>>, ex: Option<bool>| {
+        let r1 = rej(e);
+        out.push((fl, res, ex, r1 != r0));
+        r0 = r1;
+    };
+    let v = e.query(id, None).map(|v| (bits(&v), Meta::new()));
+    push(&mut out, "query", Some(v), None);
+    let v = e.get_embedding_cache_aware(id).map(|v| (bits(&v), Meta::new()));
+    push(&mut out, "get_embedding_cache_aware", Some(v), None);
+    let v = e.get_document_with_metadata(id).map(|(v, m)| (bits(&v), to_btree(&m)));
+    push(&mut out, "get_document_with_metadata", Some(v), None);
+    let v = e.bulk_query(&[id], true).into_iter().next().flatten().map(|(v, m)| (bits(&v), to_btree(&m)));
+    push(&mut out, "bulk_query", Some(v), None);
+    let v = e.get_metadata(id).map(|m| (vec![], to_btree(&m)));
+    push(&mut out, "get_metadata", Some(v), None);
+    let x = e.exists(id);
+    push(&mut out, "exists", None, Some(x));
     out
 }
 
@@ -241,7 +274,7 @@ fn execute_inner(plan: &Plan) -> Exec {
             return ex;
         }
     };
-    let mut ctx = Ctx { model: Model::new(), seen: BTreeMap::new(), planted: BTreeMap::new() };
+    let mut ctx = Ctx { model: Model::new(), seen: BTreeMap::new(), planted: BTreeMap::new(), cold_timeouts_at: Vec::new() };
     let cap = plan.cfg.cache_cap;
     let mut probe = |ex: &mut Exec, k: &str| *ex.probes.entry(k.to_string()).or_insert(0) += 1;
     'steps: for (k, step) in plan.steps.iter().enumerate() {
@@ -253,6 +286,7 @@ fn execute_inner(plan: &Plan) -> Exec {
         let mut read_result: Option<(String, u64, Option<Doc>)> = None; // flavour, id, got
         let mut multi_read: Vec<(u64, Option<Doc>)> = Vec::new();
         let mut was_insert_returned = false;
+        let mut own_read_rejected = false;
         match step {
             Step::Poke(p) => {
                 step_name = "poke".into();
@@ -264,6 +298,20 @@ fn execute_inner(plan: &Plan) -> Exec {
                     ctx.planted.entry(id).or_default().push(label);
                 }
             }
+            Step::SlowSearch { q, k, hot, cold } => {
+                step_name = "slow_search".into();
+                let _fz = simlibc::FreezeClock::new();
+                let (_r, d) = timed_search(&b, &unbits(q), *k, None, 0, Stall { hot: *hot, cold: *cold });
+                if d.threads_stalled > 0 {
+                    probe(&mut ex, "slow_tier_thread_stalled");
+                }
+                if d.any() {
+                    probe(&mut ex, &format!("slow_search_{}", d.label()));
+                }
+                for _ in 0..d.cold_timeouts {
+                    ctx.cold_timeouts_at.push(simlibc::clock_now_ns());
+                }
+            }
             Step::BackgroundTick => {
                 step_name = "background_tick".into();
                 simlibc::clock_advance_ns(31_000_000_000);
@@ -272,7 +320,9 @@ fn execute_inner(plan: &Plan) -> Exec {
             }
             Step::Api(op) => {
                 step_name = op.name().to_string();
+                let rej0 = b.engine.stats().circuit_breaker_rejections;
                 let res = exec(&b, op);
+                own_read_rejected = b.engine.stats().circuit_breaker_rejections != rej0;
                 match (op, &res) {
                     (ApiOp::Insert { id, vec, meta }, ApiRes::Unit(r)) => {
                         was_insert_returned = true;
@@ -305,11 +355,45 @@ fn execute_inner(plan: &Plan) -> Exec {
                     (ApiOp::UpdateMeta { id, meta, merge }, ApiRes::Bool(Ok(_))) => {
                         model_apply(&mut ctx.model, &OpK::UpdateMeta { id: *id, meta: meta.clone(), merge: *merge });
                     }
-                    (ApiOp::BulkLoad { docs }, ApiRes::Count(Ok(_))) => {
-                        for (id, vec, meta) in docs {
-                            if let Some(stored) = b.engine.cold_tier().fetch_document(*id) {
-                                if b.engine.cold_tier().fetch_metadata(*id).map(|m| to_btree(&m)).as_ref() == Some(meta) {
-                                    let pinned = pin_vector(plan.cfg.metric, vec, &stored).unwrap_or_else(|_| bits(&stored));
+                    (ApiOp::BulkLoad { docs }, ApiRes::Count(Ok(loaded))) => {
+                        // the call reports counts only. When every item is reported as loaded the items are writes
+                        // in batch order (the last copy of a repeated id is its latest write); when some failed,
+                        // which ones took effect is read off the canonical store
+                        let all_loaded = *loaded as usize == docs.len();
+                        let mut last: BTreeMap<u64, usize> = BTreeMap::new();
+                        for (i, (id, _, _)) in docs.iter().enumerate() {
+                            last.insert(*id, i);
+                        }
+                        if all_loaded && last.len() < docs.len() {
+                            probe(&mut ex, "bulk_load_repeats_an_id");
+                        }
+                        for (i, (id, vec, meta)) in docs.iter().enumerate() {
+                            let stored = b.engine.cold_tier().fetch_document(*id);
+                            let stored_meta = b.engine.cold_tier().fetch_metadata(*id).map(|m| to_btree(&m));
+                            if all_loaded {
+                                if last[id] != i {
+                                    continue;
+                                }
+                                let pinned = stored.as_ref().and_then(|sv| pin_vector(plan.cfg.metric, vec, sv).ok());
+                                match (pinned, stored_meta.as_ref() == Some(meta)) {
+                                    (Some(pv), true) => {
+                                        ctx.model.insert(*id, (pv, meta.clone()));
+                                    }
+                                    _ => {
+                                        let mut f = BTreeMap::new();
+                                        f.insert("read".into(), "canonical_store_after_bulk_load".to_string());
+                                        f.insert("difference".into(), if stored.is_none() { "existing_document_not_found" } else if stored_meta.as_ref() != Some(meta) { "metadata_differs" } else { "vector_differs" }.to_string());
+                                        f.insert("planted".into(), "none".to_string());
+                                        ex.problems.push(Problem { property: "C04", clause: "read_differs_from_latest_write".into(), message: format!("step {}: bulk load reported all {} items loaded, but the canonical record of id {} is not the last item written for it (stored metadata {:?}, expected {:?})", step_no, docs.len(), id, stored_meta, meta), facts: f });
+                                        if let (Some(sv), Some(sm)) = (stored.as_ref(), stored_meta.clone()) {
+                                            ctx.model.insert(*id, (bits(sv), sm));
+                                        }
+                                    }
+                                }
+                                ctx.planted.remove(id);
+                            } else if let Some(sv) = stored.as_ref() {
+                                if stored_meta.as_ref() == Some(meta) {
+                                    let pinned = pin_vector(plan.cfg.metric, vec, sv).unwrap_or_else(|_| bits(sv));
                                     ctx.model.insert(*id, (pinned, meta.clone()));
                                 }
                             }
@@ -351,11 +435,21 @@ fn execute_inner(plan: &Plan) -> Exec {
             probe(&mut ex, "emergency_drain");
         }
         // ---- C04: the read performed by this step
-        let mut judge_read = |ex: &mut Exec, flavour: &str, id: u64, got: &Option<Doc>, ctx: &Ctx, when: &str| {
+        let mut judge_read = |ex: &mut Exec, flavour: &str, id: u64, got: &Option<Doc>, ctx: &Ctx, when: &str, rejected: bool| {
             ex.reads_checked += 1;
+            if rejected {
+                *ex.probes.entry("read_while_breaker_open".to_string()).or_insert(0) += 1;
+            }
             if let Err(m) = check_read(flavour, got, ctx.model.get(&id)) {
                 let mut f = BTreeMap::new();
                 f.insert("read".into(), flavour.to_string());
+                // the engine's own counter says whether this read was turned away by an open circuit breaker
+                f.insert("breaker_rejection_during_read".into(), if rejected { "yes" } else { "no" }.to_string());
+                // injected faults that explain an open cold-tier breaker: three timeouts inside its one-minute window
+                // open it for one minute, so the three lie within the two minutes before the read
+                let now = simlibc::clock_now_ns();
+                let recent = ctx.cold_timeouts_at.iter().filter(|t| now.saturating_sub(**t) <= 120_000_000_000).count();
+                f.insert("cold_tier_timeouts_in_last_two_minutes".into(), match recent { 0 => "0", 1 | 2 => "1-2", _ => "3+" }.to_string());
                 f.insert("planted".into(), ctx.planted.get(&id).map(|v| {
                     let mut u = v.clone();
                     u.sort();
@@ -368,10 +462,10 @@ fn execute_inner(plan: &Plan) -> Exec {
             }
         };
         if let Some((fl, id, got)) = &read_result {
-            judge_read(&mut ex, fl, *id, got, &ctx, "this step's own read");
+            judge_read(&mut ex, fl, *id, got, &ctx, "this step's own read", own_read_rejected);
         }
         for (id, got) in &multi_read {
-            judge_read(&mut ex, "bulk_query", *id, got, &ctx, "this step's own read");
+            judge_read(&mut ex, "bulk_query", *id, got, &ctx, "this step's own read", own_read_rejected);
         }
         // ---- C04: a drain / audit / poke must not change what is durable: canonical store == model
         let drained = matches!(step, Step::Api(ApiOp::Flush { .. }) | Step::BackgroundTick) || b.engine.hot_tier().stats().total_flushes != flushes_before;
@@ -398,9 +492,9 @@ fn execute_inner(plan: &Plan) -> Exec {
         // ---- C04: full read census at checkpoints
         if k % 5 == 4 || k + 1 == plan.steps.len() || matches!(step, Step::Poke(_)) && k % 2 == 0 {
             for id in 0..plan.universe + 1 {
-                for (fl, res, exists) in read_all(&b, id) {
+                for (fl, res, exists, rejected) in read_all(&b, id) {
                     if let Some(got) = res {
-                        judge_read(&mut ex, fl, id, &got, &ctx, "checkpoint read");
+                        judge_read(&mut ex, fl, id, &got, &ctx, "checkpoint read", rejected);
                     }
                     if let Some(e2) = exists {
                         ex.reads_checked += 1;
